@@ -16,11 +16,17 @@ type condAssume struct {
 	bval map[types.Object]bool         // boolean variable -> assumed value
 	eq   map[types.Object]types.Object // variable -> the constant object it is assumed equal to
 	ival map[types.Object]int64        // integer variable -> assumed value
+	nilv map[types.Object]bool         // variable -> assumed to be nil (true) / not nil (false)
+	call func(*ast.CallExpr) int       // assumed results of boolean calls (1, 0, or -1 for unknown)
 }
 
 func (a *condAssume) eval(e ast.Expr) int {
 	e = unparen(e)
 	switch v := e.(type) {
+	case *ast.CallExpr:
+		if a.call != nil {
+			return a.call(v)
+		}
 	case *ast.Ident:
 		if o := objOf(a.info, v); o != nil {
 			if b, ok := a.bval[o]; ok {
@@ -64,6 +70,20 @@ func (a *condAssume) eval(e ast.Expr) int {
 		case token.EQL, token.NEQ:
 			if r, ok := a.cmpInt(v); ok {
 				return r
+			}
+			// x == nil / x != nil
+			for _, pair := range [][2]ast.Expr{{v.X, v.Y}, {v.Y, v.X}} {
+				if !isNil(a.info, pair[1]) {
+					continue
+				}
+				if o := objOf(a.info, pair[0]); o != nil {
+					if isN, ok := a.nilv[o]; ok {
+						if (v.Op == token.EQL) == isN {
+							return 1
+						}
+						return 0
+					}
+				}
 			}
 			for _, pair := range [][2]ast.Expr{{v.X, v.Y}, {v.Y, v.X}} {
 				vo := objOf(a.info, pair[0])
